@@ -71,6 +71,8 @@ func init() {
 				return "", err
 			}
 		}
+		// what the error branches of indexKVStore.Flush do besides returning the error
+		sb.WriteString("\ndef kvFlushErrBranchCalls : List (List String) := [" + strings.Join(errBranchCalls(FindFunc(kvf, "indexKVStore", "Flush")), ", ") + "]\n")
 		// ---- index/metric_schema_store.go
 		_, ssf, err := ParseFile(repo, "index/metric_schema_store.go")
 		if err != nil {
@@ -81,6 +83,12 @@ func init() {
 			if err := emit(p[0], FindFunc(ssf, "metricSchemaStore", p[1]), "metricSchemaStore."+p[1]); err != nil {
 				return "", err
 			}
+		}
+		// the schema lookup of the create path (genFieldID / genTagKeyID under the write lock), if there is one
+		if fd := FindFunc(ssf, "metricSchemaStore", "getSchemaLocked"); fd != nil {
+			sb.WriteString("\ndef schemaGetSchemaLockedCalls : List String := " + LeanStrList(CallSeq(fd)) + "\n")
+		} else {
+			sb.WriteString("\ndef schemaGetSchemaLockedCalls : List String := []\n")
 		}
 		// ---- index/metric_meta_database.go
 		_, mmf, err := ParseFile(repo, "index/metric_meta_database.go")
@@ -137,6 +145,39 @@ func init() {
 		}
 		return sb.String(), nil
 	}})
+}
+
+// errBranchCalls: for every `if … err … { … }` statement of fd whose body returns, the calls made in
+// that body (rendered as Lean string lists), in source order; function literals included.
+func errBranchCalls(fd *ast.FuncDecl) []string {
+	var out []string
+	if fd == nil || fd.Body == nil {
+		return out
+	}
+	ast.Inspect(fd.Body, func(n ast.Node) bool {
+		is, ok := n.(*ast.IfStmt)
+		if !ok {
+			return true
+		}
+		mentionsErr := false
+		ast.Inspect(is.Cond, func(m ast.Node) bool {
+			if id, ok := m.(*ast.Ident); ok && strings.HasPrefix(id.Name, "err") {
+				mentionsErr = true
+			}
+			return true
+		})
+		returns := false
+		for _, st := range is.Body.List {
+			if _, ok := st.(*ast.ReturnStmt); ok {
+				returns = true
+			}
+		}
+		if mentionsErr && returns {
+			out = append(out, LeanStrList(CallSeq(&ast.FuncDecl{Body: is.Body})))
+		}
+		return true
+	})
+	return out
 }
 
 func lowerFirst(s string) string { return strings.ToLower(s[:1]) + s[1:] }
